@@ -95,7 +95,12 @@ func c09ExtFn(api frontend.API, in []frontend.Variable) []frontend.Variable {
 func genState() *rapid.Generator[[]uint64] {
 	return rapid.Custom(func(t *rapid.T) []uint64 {
 		s := make([]uint64, 12)
-		switch rapid.IntRange(0, 5).Draw(t, "shape") {
+		switch rapid.IntRange(0, 6).Draw(t, "shape") {
+		case 6: // pre-image of an all-edge state under the first constant layer (extreme values inside the first full round)
+			e := rapid.SampledFrom(glEdges).Draw(t, "edge")
+			for i := range s {
+				s[i] = ref.Sub(e, ref.GL.RC[i])
+			}
 		case 0: // all equal edge
 			e := rapid.SampledFrom(glEdges).Draw(t, "edge")
 			for i := range s {
